@@ -74,6 +74,11 @@ def qapsplit():
     """
     global eqs, blocks
 
+    # the whole equation file is read again on every call: start from empty tables,
+    # otherwise a second prove() in one process counts every earlier equation twice
+    eqs = dict()
+    blocks = dict()
+
     fns = dict()
     extblocks = set()
 
